@@ -58,6 +58,8 @@ def run(ctx, rep):
                    "convert_vec = U·vec with the same U; Kraus -> HS uses kron(K, conj(K))", floor=3)
     rep.rule("R4", "sparse tables: builders give each table the conjugation/transposition its name states, each accessor guards "
                    "and returns its own field, and each *_with_sparsity conversion reads the table of its own direction", floor=12)
+    rep.rule("R6", "an option (defaulted parameter) that both a conversion and its delegate accept under the same name is handed on, "
+                   "so that the caller's choice (basis ordering mode, truncation threshold, constraint flag) governs every path", floor=40)
     rep.rule("R5", "functions reached through one slot (self.__class__(...), _generate_from_var_func()) bind the call made through it", floor=28)
 
     # ---------------------------------------------------------------------- R1
@@ -132,6 +134,8 @@ def run(ctx, rep):
 
     # ---------------------------------------------------------------------- R4
     _check_tables(ctx, rep)
+    _check_table_orientation(ctx, rep)
+    _check_option_forwarding(ctx, rep)
 
     # ---------------------------------------------------------------------- R5
     base = ix.cls("quara.objects.qoperation.QOperation")
@@ -399,3 +403,126 @@ def _check_tables(ctx, rep):
                 else:
                     rep.violation("R4", f, n, "%s converts %s -> %s but reads table %s, which maps %s -> %s"
                                   % (f.name, a, r, n.attr, frm, to), node=n)
+
+
+# ------------------------------------------------------------------------------ R4 (d): orientation
+def _check_table_orientation(ctx, rep):
+    from .. import tables as T
+    from ..astutil import single_defs
+    tabs = T.analyse_builders(ctx)
+    us = T.uses(ctx, "quara.objects")
+    for u in us:
+        t = tabs.get("_" + u.table)
+        con = "%s.dot(%s)" % (u.table, unparse(u.arg))
+        if t is None or isinstance(t, str):
+            rep.undecided("R4", u.f, con, "layout of table %s not derivable: %s" % (u.table, t))
+            continue
+        argx = u.arg
+        defs = single_defs(u.f)
+        for _ in range(3):
+            if isinstance(argx, ast.Name) and argx.id in defs:
+                argx = defs[argx.id]
+        order, base = T.flat_order(ctx, argx)
+        rorder, rnode = T.result_reshape(u.f, u.call)
+        problems, undec = [], []
+        if t.transposed:
+            # coefficient vector runs over the table's row index; result is a flattened element
+            if len(t.rows) == 2:
+                if order is None:
+                    undec.append("coefficient vector `%s` is not a recognised flattening of a matrix" % unparse(argx))
+                elif order != "C":
+                    problems.append("the coefficient vector `%s` enumerates the matrix column by column, but the table's rows were built with "
+                                    "`%s` as the major index (for %s in product(...)): coefficient [i, j] meets the element of (j, i)"
+                                    % (unparse(argx), t.rows[0], ", ".join(t.rows)))
+            if rnode is None:
+                undec.append("result of the product is not reshaped into a matrix")
+            elif rorder is None:
+                undec.append("reshape order not constant")
+            elif rorder != t.elem_order:
+                problems.append("the result is reshaped in %s order but the table's elements were flattened in %s order (the matrix comes out "
+                                "transposed)" % (rorder, t.elem_order))
+        else:
+            # input vector runs over a flattened element; result runs over the row index
+            if order is None:
+                undec.append("input vector `%s` is not a recognised flattening of a matrix" % unparse(argx))
+            elif order != t.elem_order:
+                problems.append("the input `%s` is flattened in %s order but the table's elements were flattened in %s order: entry (i, j) of "
+                                "the input meets entry (j, i) of each basis element" % (unparse(argx), order, t.elem_order))
+            if len(t.rows) == 2:
+                if rnode is None:
+                    undec.append("result of the product is not reshaped into a matrix")
+                elif rorder != "C":
+                    problems.append("the result is reshaped in %s order but the table's rows have `%s` as the major index" % (rorder, t.rows[0]))
+        if problems:
+            rep.violation("R4", u.f, con, "; ".join(problems) + " [" + t.describe() + "]", node=u.call)
+        elif undec:
+            rep.undecided("R4", u.f, con, "; ".join(undec))
+        else:
+            rep.holds("R4", u.f, con, "orientation agrees with the builder (%s)" % t.describe(), node=u.call)
+    # name-stated element of the two-index tables: B_a (x) conj(B_b), first loop variable on the left
+    for field, t in sorted(tabs.items()):
+        if isinstance(t, str) or len(t.rows) != 2 or "basisconjugate" not in field:
+            continue
+        if "basis_basisconjugate" in field or "basisconjugate_basis" in field:
+            want = ("kron", (("basis[%s]" % t.rows[0], False, False),), (("basis[%s]" % t.rows[1], True, False),))
+            got = T.canon(t.elem)
+            rep.check(got == want, "R4", t.builder, "element of %s" % field, "kron(B_%s, conj B_%s)" % t.rows,
+                      "table %s is filled with %s; its name and the conversions' formula C(A) = sum HS[a,b] B_a (x) conj(B_b) require "
+                      "kron(basis[%s], conj(basis[%s]))" % (field, unparse(t.elem), t.rows[0], t.rows[1]), node=t.node)
+
+
+# ------------------------------------------------------------------------------ R6: option forwarding
+def _defaults(f: Func):
+    a = f.node.args
+    pos = a.posonlyargs + a.args
+    d = {}
+    for p, dv in zip(pos[len(pos) - len(a.defaults):], a.defaults):
+        d[p.arg] = dv
+    for p, dv in zip(a.kwonlyargs, a.kw_defaults):
+        if dv is not None:
+            d[p.arg] = dv
+    return d
+
+
+def _check_option_forwarding(ctx, rep):
+    """A conversion that accepts an option (a defaulted parameter: basis ordering `mode`, truncation threshold, ...) and
+    delegates to a callee that accepts an option of the same name hands its own value on.  When the option is left out the
+    callee silently uses its default, so the caller's choice (e.g. column-major computational basis) is ignored on that path."""
+    ix, res = ctx.ix, ctx.res
+    for f in ix.funcs.values():
+        if f.module.name not in MODS:
+            continue
+        fd = _defaults(f)
+        if not fd:
+            continue
+        for c in own_nodes(f.node):
+            if not isinstance(c, ast.Call) or any(k.arg is None for k in c.keywords) or any(isinstance(a, ast.Starred) for a in c.args):
+                continue
+            ts = []
+            for t in res.resolve_call(f, c, by_name=True):
+                if isinstance(t, Class):
+                    t = t.lookup("__init__")
+                if isinstance(t, Func):
+                    ts.append(t)
+            if not ts:
+                continue
+            for p in fd:
+                if not all(p in _defaults(t) for t in ts):
+                    continue
+                passed = []
+                for t in ts:
+                    bound = t.name == "__init__" or (isinstance(c.func, ast.Attribute) and t.kind not in ("function", "static"))
+                    b, _ = bind_call(c, t, bound)
+                    passed.append(b.get(p))
+                con = "%s(... %s=)" % (unparse(c.func)[:60], p)
+                if all(e is None for e in passed):
+                    # the caller may have consumed the option itself before delegating (reads of p other than forwarding)
+                    rep.violation("R6", f, con, "%s accepts the option '%s' but calls %s without it: the callee falls back to its own default "
+                                                "(%s) whatever the caller asked for" % (f.name, p, ts[0].qualname, unparse(_defaults(ts[0])[p])), node=c)
+                elif all(e is not None for e in passed):
+                    e = passed[0]
+                    derived = any(isinstance(x, ast.Name) and x.id == p for x in ast.walk(e))
+                    if derived:
+                        rep.holds("R6", f, con, "%s <- %s" % (p, unparse(e)), node=c)
+                    else:
+                        rep.info("R6", f, con, "callee option %s is set to %s, not to the caller's value" % (p, unparse(e)), node=c)
